@@ -27,6 +27,7 @@ func checkC14(c *Check) {
 	c14Keys(c)
 	c14Hashes(c)
 	c14Verify(c)
+	c14StoredHash(c)
 	c14Providers(c)
 	c14Mapping(c)
 	c14Gate(c)
@@ -305,6 +306,162 @@ func c14Verify(c *Check) {
 	}
 	// a nil verifier (unknown tag) is refused before the call
 	c.Hold("R3", "Auth.AuthPlain", r.FI.Decl.Pos(), msg == "", msg)
+}
+
+// R3c: what is verified / stored
+func c14StoredHash(c *Check) {
+	c.Rule("R3c", "pass_table: AuthPlain verifies the second part of the hash it looked up, with the verifier selected by the first part of the same value; "+
+		"CreateUserHash / SetUserPassword report success only after the table accepted the new value, the stored value is computed from the supplied password, and CreateUserHash cannot replace existing credentials", 5)
+	// chase a local variable to its single definition
+	if r := c.need("R3c", passTableRel, "Auth", "AuthPlain"); r != nil {
+		info := r.Info
+		body := r.FI.Decl.Body
+		msg := "undecided: the verifier call was not found"
+		ast.Inspect(body, func(n ast.Node) bool {
+			ret, ok := n.(*ast.ReturnStmt)
+			if !ok || len(ret.Results) != 1 {
+				return true
+			}
+			call, ok := ast.Unparen(ret.Results[0]).(*ast.CallExpr)
+			if !ok || len(call.Args) != 2 {
+				return true
+			}
+			fo := objOf(info, call.Fun)
+			if fo == nil {
+				return true
+			}
+			def, nd := localDef(info, body, fo)
+			sel, ok := ast.Unparen(def).(*ast.IndexExpr)
+			if !ok || nd != 1 {
+				return true
+			}
+			if o := objOf(info, sel.X); o == nil || objName(o) != "HashVerify" {
+				return true
+			}
+			msg = ""
+			// both indexes: parts[0] selects, parts[1] is verified
+			selIx, ok1 := ast.Unparen(sel.Index).(*ast.IndexExpr)
+			argIx, ok2 := ast.Unparen(call.Args[1]).(*ast.IndexExpr)
+			if !ok1 || !ok2 || objOf(info, selIx.X) == nil || objOf(info, selIx.X) != objOf(info, argIx.X) {
+				msg = "the verifier is not selected by, and applied to, the two parts of one and the same value"
+				return false
+			}
+			i0, okA := constInt(info.Types[selIx.Index])
+			i1, okB := constInt(info.Types[argIx.Index])
+			if !okA || !okB || i0 != 0 || i1 != 1 {
+				msg = "the tag must be part 0 and the verified hash part 1 of the stored value"
+				return false
+			}
+			parts := objOf(info, argIx.X)
+			pdef, np := localDef(info, body, parts)
+			pc, ok := ast.Unparen(pdef).(*ast.CallExpr)
+			if !ok || np != 1 || !isCall(info, pc, "strings.SplitN", "strings.Split", "strings.Cut") || len(pc.Args) < 2 {
+				msg = "the verified value is not a split of the stored value"
+				return false
+			}
+			hash := objOf(info, pc.Args[0])
+			if hash == nil {
+				msg = "the split value is not a local variable"
+				return false
+			}
+			hdef, nh := localDef(info, body, hash)
+			hc, ok := ast.Unparen(hdef).(*ast.CallExpr)
+			if !ok || nh != 1 || methodName(hc) != "Lookup" || !isField(info, callRecv(hc), "Auth", "table") {
+				msg = "the verified value is not the result of looking the key up in the credentials table"
+				return false
+			}
+			return false
+		})
+		c.Hold("R3c", "Auth.AuthPlain:verifies-stored-hash", r.FI.Decl.Pos(), msg == "", msg)
+	}
+	for _, m := range []string{"CreateUserHash", "SetUserPassword"} {
+		r := c.need("R3c", passTableRel, "Auth", m)
+		if r == nil {
+			continue
+		}
+		info := r.Info
+		body := r.FI.Decl.Body
+		setKey := func(info *types.Info, call *ast.CallExpr) bool { return isCall(info, call, "~/framework/module.MutableTable.SetKey") }
+		msgs, n := r.SuccessOnlyFrom(setKey)
+		msg := ""
+		if n == 0 {
+			msg = "undecided: no SetKey call"
+		}
+		for _, mm := range msgs {
+			if mm != "" {
+				msg = mm
+			}
+		}
+		c.Hold("R3c", "Auth."+m+":success-only-after-SetKey", r.FI.Decl.Pos(), msg == "", msg)
+		// the password parameter: second parameter
+		sig := r.FI.Obj.Type().(*types.Signature)
+		var pw types.Object
+		if sig.Params().Len() >= 2 {
+			pw = sig.Params().At(1)
+		}
+		msg = ""
+		for _, pt := range r.Calls(setKey) {
+			call := r.CallAt(pt, setKey)
+			if len(call.Args) != 2 {
+				msg = "undecided: SetKey shape"
+				continue
+			}
+			// some identifier of the value expression is defined as HashCompute[...](…, password)
+			fromPw := false
+			ast.Inspect(call.Args[1], func(x ast.Node) bool {
+				id, ok := x.(*ast.Ident)
+				if !ok {
+					return true
+				}
+				o := info.Uses[id]
+				if o == nil {
+					return true
+				}
+				def, nd := localDef(info, body, o)
+				hc, ok := ast.Unparen(def).(*ast.CallExpr)
+				if !ok || nd != 1 {
+					return true
+				}
+				ix, ok := ast.Unparen(hc.Fun).(*ast.IndexExpr)
+				if !ok {
+					return true
+				}
+				if ho := objOf(info, ix.X); ho == nil || objName(ho) != "HashCompute" {
+					return true
+				}
+				for _, a := range hc.Args {
+					if pw != nil && objOf(info, a) == pw {
+						fromPw = true
+					}
+				}
+				return true
+			})
+			if !fromPw {
+				msg = "the value stored for the account is not the hash of the supplied password"
+			}
+		}
+		c.Hold("R3c", "Auth."+m+":stores-hash-of-password", r.FI.Decl.Pos(), msg == "", msg)
+		if m == "CreateUserHash" {
+			// existing credentials are not replaced
+			look := func(info *types.Info, call *ast.CallExpr) bool { return methodName(call) == "Lookup" && len(call.Args) == 2 }
+			msg := "undecided: no lookup of the key before storing"
+			for _, pt := range r.Calls(look) {
+				as, ok := pt.Node().(*ast.AssignStmt)
+				if !ok || len(as.Lhs) != 3 {
+					continue
+				}
+				okObj := objOf(info, as.Lhs[1])
+				if okObj == nil {
+					continue
+				}
+				msg = ""
+				if path, f := r.F.ReachRefined(pt, okObj, false, true, r.IsCallPt(setKey), nil); f {
+					msg = "credentials that already exist can be replaced by 'create': " + r.F.Describe(path)
+				}
+			}
+			c.Hold("R3c", "Auth."+m+":existing-not-replaced", r.FI.Decl.Pos(), msg == "", msg)
+		}
+	}
 }
 
 // R3b: the provider loop
